@@ -490,7 +490,7 @@ func c18PtrEnvs() (ptr, plain map[string]any) {
 		"mi":   map[string]*int{"k": &n1, "z": nil},
 		"ints": []*int{&n1, nil, &n2}, "times": []*time.Time{&t2, &t1}, "anys": []any{&n1, &s1, &t1, ni},
 		// records whose property is a pointer: map: "n" is a property lookup per element
-		"recs": []any{map[string]any{"n": &n1}, map[string]any{"n": &n2}, map[string]any{"n": &n1}, map[string]any{"n": ni}},
+		"recs":  []any{map[string]any{"n": &n1}, map[string]any{"n": &n2}, map[string]any{"n": &n1}, map[string]any{"n": ni}},
 		"srecs": []any{map[string]any{"s": &sb, "id": 1}, map[string]any{"s": &sa, "id": 2}, map[string]any{"s": &sc, "id": 3}},
 	}
 	plain = map[string]any{
@@ -500,7 +500,7 @@ func c18PtrEnvs() (ptr, plain map[string]any) {
 		"m":    map[string]any{"k": t1, "z": nil},
 		"mi":   map[string]any{"k": n1, "z": nil},
 		"ints": []any{n1, nil, n2}, "times": []any{t2, t1}, "anys": []any{n1, s1, t1, nil},
-		"recs": []any{map[string]any{"n": n1}, map[string]any{"n": n2}, map[string]any{"n": n1}, map[string]any{"n": nil}},
+		"recs":  []any{map[string]any{"n": n1}, map[string]any{"n": n2}, map[string]any{"n": n1}, map[string]any{"n": nil}},
 		"srecs": []any{map[string]any{"s": sb, "id": 1}, map[string]any{"s": sa, "id": 2}, map[string]any{"s": sc, "id": 3}},
 	}
 	return
